@@ -869,6 +869,14 @@ func c09Resolved(v ssa.Value) ssa.Value {
 		if !ok || u.Op != token.MUL {
 			return v
 		}
+		// a field of a local struct that merely carries a value (rebuilt.tagResolver)
+		if fa, isFA := u.X.(*ssa.FieldAddr); isFA {
+			if w := c09FieldValue(fa.X, fa.Field); w != nil {
+				v = w
+				continue
+			}
+			return v
+		}
 		src := c09CellSource(v)
 		if src == nil || src == v {
 			return v
